@@ -537,7 +537,7 @@ def diffun(ctx, f, n=1, **options):
     See :func:`~mpmath.diff` for additional details and supported
     keyword options.
     """
-    if n == 0:
+    if n == 0 and not options:
         return f
     def g(x):
         return ctx.diff(f, x, n, **options)
